@@ -802,6 +802,25 @@ theorem truthful_broker_never_strands_waiters (stream0 : List Frame) (ht : Truth
         | kafkaErr p g => exact (head_not_taken ht hi hs hcj (by rw [hst]; rfl) hid).elim
     simp [step, hl, hrd, statusOf, hcj, hw, hs, hid]
 
+/-- **no_progress_only_when_alone** — `io.ErrNoProgress` is enabled for a caller only while no other call is waiting
+for its response, whatever is at the head of the stream (the reference monitor `Spec.Mux.noProgressOnlyAlone` checks the
+same thing on the recorded events of the real code) -/
+theorem no_progress_only_when_alone (s s' : State) (seq seen : Nat) (h : step s (.lone seq seen) = some s')
+    (j : Nat) (hj : j ≠ seq) (hr : j ≤ s.nextSeq) : statusOf s j ≠ some .waiting := by
+  simp only [step] at h
+  split at h
+  · next f rest hrd hl hw hs =>
+    split at h
+    · next hc =>
+      have hal := hc.2.2
+      simp only [aloneWaiting, List.all_eq_true, List.mem_range] at hal
+      have := hal j (by omega)
+      intro hwj
+      simp [hwj] at this
+      exact hj this
+    · cases h
+  · cases h
+
 /-- the hypothesis is needed: one duplicated answer and two later callers — both waiters see a frame that belongs
 to neither, both can only yield (neither is alone), for ever -/
 theorem duplicate_answer_strands_waiters_counterexample :
@@ -1367,6 +1386,10 @@ parameters by position and data flow), so behaviour-preserving edits leave it tr
 * `promisePairedWithRequest`, `runAnswersItsOwnRequest` — TransportConn `Delivery`: the response of an exchange
   goes to the promise created with that request.
 * `loneOnlyWhenAlone` — `Event.lone` requires `aloneWaiting`.
+* `inflightCountsRequests` — `Event.lone` requires `aloneWaiting`, which counts the calls whose status is `waiting`: every
+  request written and not yet served.  In the code that is `Conn.inflight`: `enter()` in `doRequest` (the one function
+  that numbers and writes a request, whoever calls it), `leave()` when the wait ends (seed C06-m9 moved `enter()` to `do`:
+  ApiVersions and ReadBatchWith were no longer counted and the counter drifted below the number of waiters).
 * `primitivesChargeWhatTheyConsume` — the primitives of read.go / discard.go themselves: every `r.Discard` /
   `io.ReadFull` / `r.Read` has its byte count subtracted from the budget (`conserves_*` of Base/Reader,
   `varint_read_conserves` below: the hypothesis `Prim.conserves` of `wire_discipline_consumes_frame`).
@@ -1394,7 +1417,7 @@ theorem structural_facts_hold :
     Gen.MuxFacts.batchCallbacksThreaded = true ∧ Gen.MuxFacts.hooksInsideCriticalSections = true ∧
     Gen.MuxFacts.promisePairedWithRequest = true ∧ Gen.MuxFacts.runAnswersItsOwnRequest = true ∧
     Gen.MuxFacts.loneOnlyWhenAlone = true ∧ Gen.MuxFacts.readFailureCloseDropsBuffered = true ∧
-    Gen.MuxFacts.primitivesChargeWhatTheyConsume = true := by decide
+    Gen.MuxFacts.primitivesChargeWhatTheyConsume = true ∧ Gen.MuxFacts.inflightCountsRequests = true := by decide
 
 /-- **readVarInt conserves bytes however the response is cut into chunks** (Model/VarIntRead.lean).  `Prim.varint` of
 Model/WireProg.lean took this for granted; it is now proved for the algorithm of read.go itself — the window of buffered
@@ -1568,6 +1591,23 @@ def grabConnModelRow (sc : List String) : List String :=
     | some s1 => ["lock", "defer:unlock"] ++ (if (s1.conns 1).st == .grabbed then ["pop", "return:conn"] else ["?"])
     | none => ["lock", "defer:unlock", "return:nil"]
 
+/-- `grabConnTo` (the path taken when a `Transport.Resolver` is set): scans the idle stack from the top for a conn to
+the resolved address.  The model has no addresses — `Event.grab cid` may take ANY idle conn, which covers every choice
+the scan can make; a conn is handed out exactly when `grab` is enabled for it and the address matches, and no idle conn
+(or none to that address) means the caller connects anew. -/
+def grabConnToModelRow (sc : List String) : List String :=
+  let pre : List TransportConn.Event :=
+    if flag sc "idleLeft" then [.new 1 1 1 [⟨2, 5⟩], .recv 1 5, .done 1 .ok, .release 1 true] else []
+  match TransportConn.run pre with
+  | none => ["model: no such state"]
+  | some s0 =>
+    match TransportConn.step s0 (.grab 1) with
+    | some s1 =>
+      if flag sc "addressMatches" then
+        ["lock", "defer:unlock"] ++ (if (s1.conns 1).st == .grabbed then ["pop", "return:conn"] else ["?"])
+      else ["lock", "defer:unlock", "loop", "return:nil"]
+    | none => ["lock", "defer:unlock", "return:nil"]
+
 def removeConnModelRow (sc : List String) : List String :=
   -- `isThisConn`: the conn is (still) in the idle stack when its timer fires
   let pre : List TransportConn.Event :=
@@ -1681,6 +1721,7 @@ theorem flow_tables_are_the_models :
     Gen.MuxFacts.readBatchWithFlow.all (fun (sc, eff) => readBatchWithModelRow sc == eff) = true ∧
     Gen.MuxFacts.releaseConnFlow.all (fun (sc, eff) => releaseConnModelRow sc == eff) = true ∧
     Gen.MuxFacts.grabConnFlow.all (fun (sc, eff) => grabConnModelRow sc == eff) = true ∧
+    Gen.MuxFacts.grabConnToFlow.all (fun (sc, eff) => grabConnToModelRow sc == eff) = true ∧
     Gen.MuxFacts.removeConnFlow.all (fun (sc, eff) => removeConnModelRow sc == eff) = true ∧
     Gen.MuxFacts.closeIdleConnsFlow.all (fun (sc, eff) => closeIdleConnsModelRow sc == eff) = true ∧
     Gen.MuxFacts.doRequestFlow.all (fun (sc, eff) => doRequestModelRow sc == eff) = true ∧
